@@ -9,9 +9,11 @@ for k in (0, 1, 2, 3):
                 desc="index::encode::fanout(): entry b == number of ids whose first byte <= b, for every b", inputs="%d %s; b symbolic" % (k, IDS), bound="table loop 258 (256 entries) via per-loop bound; all other loops 6"))
 def uw(k):
     # bisection over k entries needs at most k+1 rounds; neighbour scans at most k; harness scans k. memcmp keeps the harness-wide 24.
-    return [(r"index6access13lookup_prefix\.0:|index6access6lookup\.0:", k + 2), (r"take_while.*lookup_prefix", k + 2), (r"c096proofs", k + 2)]
+    # every loop of the two kernels and of the iterator adaptors instantiated with their closures (their mangled names carry the
+    # kernel's path), whatever shape the code has today
+    return [(r"index6access13lookup_prefix|index6access6lookup", k + 2), (r"c096proofs", k + 2)]
 for k in (0, 1, 2, 3, 4):
-    hs.append(H(P + "c09_lookup_%d" % k, tier="quick" if k <= 3 else "thorough", timeout=600, mem=8, covers=3, thorough_timeout=2400, unwindset=[uw(k)[0], uw(k)[2]],
+    hs.append(H(P + "c09_lookup_%d" % k, tier="quick" if k <= 3 else "thorough", timeout=600, mem=8, covers=3, thorough_timeout=2400, unwindset=uw(k),
                 desc="index::access::lookup(id) == linear scan (Some(position) iff present)", inputs="%d %s; query id likewise; fan-out correct at the slots read" % (k, IDS), bound="unwind 24 (memcmp); bisection and scans k+2 via per-loop bounds"))
 for k, c in [(0, "c"), (1, "c"), (2, "c"), (3, "c"), (4, "c"), (1, "n"), (2, "n"), (3, "n"), (4, "n")]:
     hs.append(H(P + "c09_prefix_%d_%s" % (k, c), tier="quick" if k <= 3 else "thorough", timeout=900, mem=10, covers=4, thorough_timeout=2400, unwindset=uw(k),
